@@ -22,6 +22,8 @@ from . import env
 
 VERIF = env.VERIF
 NWORKERS = int(os.environ.get("VERIF_WORKERS", "16"))
+COVER = {}
+COVER_LOCK = threading.Lock()
 
 
 def _json_default(o):
@@ -121,6 +123,16 @@ class Worker:
             except Exception:
                 pass
             try:
+                rest = self.proc.stdout.read()
+                for line in rest.splitlines():
+                    if line.startswith(b'{"_coverage"'):
+                        cov = json.loads(line)["_coverage"]
+                        with COVER_LOCK:
+                            for f, lines in cov.items():
+                                COVER.setdefault(f, set()).update(lines)
+            except Exception:
+                pass
+            try:
                 self.proc.wait(timeout=5)
             except Exception:
                 self._kill()
@@ -169,6 +181,18 @@ def run_cases(prop, cases, rundir, case_timeout, nworkers=NWORKERS):
         t.start()
     for t in threads:
         t.join()
+    return out
+
+
+def reach_summary():
+    """lines of the repository's own modules executed by this check's workers / executable lines"""
+    from . import cover
+
+    out = {}
+    for f, lines in sorted(COVER.items()):
+        ex = cover.executable_lines(os.path.join(env.REPO, "tdgl", f))
+        if ex:
+            out[f] = {"hit": len(set(lines) & ex), "executable": len(ex)}
     return out
 
 
@@ -342,6 +366,7 @@ def main(argv=None):
                 "inconclusive_cases": inconclusive[:50],
                 "exhaustive": bool(getattr(mod, "EXHAUSTIVE", {}).get(tier, False)),
                 "repo": env.REPO,
+                "repository_statement_reach": reach_summary(),
             },
             "assumptions": getattr(mod, "ASSUMPTIONS", []),
             "wall_s": round(wall, 2),
